@@ -18,5 +18,7 @@ def run(chk):
         handler_preamble(chk, ex, FUNCS[kind])
         hobl.c03_sync_before_suspend(chk, ex, domain=DOMAIN[kind])
     from . import state_contracts
-    state_contracts.sync_blocks(chk)
+    state_contracts.create_checkpoint(chk, "C03", want=("C03",))
     state_contracts.consumer(chk, "C03")
+    from . import wrapper_contracts
+    wrapper_contracts.wrapper_obligations(chk, "C03", want=("C03",))
